@@ -297,6 +297,9 @@ var authNameUniverse = func() map[string]bool {
 func randToken(rng *rand.Rand) string {
 	const al = "abcdefghijklmnopqrstuvwxyzABCDEFGHIJKLMNOPQRSTUVWXYZ0123456789-._~"
 	n := 8 + rng.Intn(24)
+	if rng.Intn(8) == 0 { // around and beyond the declared column width (VARCHAR(255), not enforced by SQLite)
+		n = []int{247, 253, 254, 255, 300, 1000}[rng.Intn(6)]
+	}
 	b := make([]byte, n)
 	for i := range b {
 		b[i] = al[rng.Intn(len(al))]
